@@ -370,7 +370,8 @@ def parse_variant_tables(
     theses are accessed by direct lookup.
     """
     if chromosomes and vcf_reader.index_exists():
-        for chromosome in chromosomes:
+        # a chromosome named twice is still one chromosome (as when the file is iterated)
+        for chromosome in dict.fromkeys(chromosomes):
             yield vcf_reader.fetch(chromosome)
     else:
         yield from vcf_reader
